@@ -257,6 +257,15 @@ func propC02(c *Check) {
 				Cond: BinEither(token.NEQ, Extract(1, Call("(*filippo.io/edwards25519.Scalar).SetCanonicalBytes")), ConstNil)}, "z_i and s_i are canonical scalars")
 		}
 	}
+	// ---- compensating signature checks of the classes exempted from the input-signature rule:
+	// a node accept / cancel is authorised by one signature of the pledging account over the payload hash
+	for _, n := range []string{"(*common.Transaction).validateNodeAccept", "(*common.Transaction).validateNodeCancel"} {
+		if f := c.F(n); f != nil {
+			ver := Call("(*crypto.Key).Verify", nil, Param("payloadHash"), Has(Param("sigs")))
+			c.MustPass(f, Gate{Name: "<pledging account key>.Verify(payloadHash, *sigs[0][0]) true", RejectOnTrue: false, Cond: ver}, acceptReturns(f), "accepting the operation (its inputs carry no ordinary signatures)")
+			c.MustPass(f, Gate{Name: "len(sigs) != 1 => reject", RejectOnTrue: true, Cond: Bin(token.NEQ, Len(Param("sigs")), ConstInt(1))}, acceptReturns(f), "accepting the operation")
+		}
+	}
 	// ---- verdict expressions of the two Schnorr verifiers: a non-false verdict is exactly the
 	// group-equation test "== 1" (an inverted or weakened comparison accepts invalid signatures)
 	if f := c.F("(*crypto.Key).VerifyWithChallenge"); f != nil {
